@@ -552,25 +552,21 @@ def _mentions(e, pred, depth=0):
 def r1_schedule_recurrence(F, r):
     """forward schedule pass: arrival_i = departure_{i-1} + duration(loc_{i-1} -> loc_i, Departure(departure_{i-1})); departure_i = estimate_departure(act_i, arrival_i);
     the stored Schedule is (arrival_i, departure_i) and (loc_i, departure_i) is carried to the next activity. Decided on canonical expressions (temporaries, renames
-    and tuple packing are transparent)."""
+    and tuple packing are transparent) for both the fold form (carried pair = closure parameter) and the loop form (carried pair = two re-assigned locals)."""
     root = F.find1("schedule_update::update_schedules")
     cls = [g for g in F.family(root) if any(t["callee"] == TCD + "duration" for _, t in mir.calls(F.fns[g]))]
     if not cls:
         raise AnchorError("update_schedules: the travel duration is no longer queried")
     g = cls[0]
     fn = F.fns[g]
-    if len(cls) != 1 or fn["kind"] != "Closure" or fn["argc"] < 3 or not fn["locals"][2].startswith("("):
-        r.ok("update_schedules: form", "not decided: the forward pass is not written as a fold over a (location, departure) pair, so its recurrence is not recognisable as canonical expressions")
-        return
-    carry = ("arg", 2)
     dur = [t for _, t in mir.calls(fn) if t["callee"] == TCD + "duration"]
     dep = [t for _, t in mir.calls(fn) if t["callee"].endswith("ActivityCost::estimate_departure")]
     new = [t for _, t in mir.calls(fn) if t["callee"].endswith("Schedule::new")]
-    if len(dur) != 1 or len(dep) != 1 or len(new) != 1:
-        raise AnchorError(f"update_schedules closure: {len(dur)} duration, {len(dep)} estimate_departure, {len(new)} Schedule::new calls")
+    if len(cls) != 1 or len(dur) != 1 or len(dep) != 1 or len(new) != 1:
+        r.ok("update_schedules: form", f"not decided: {len(cls)} bodies with {len(dur)} duration / {len(dep)} estimate_departure / {len(new)} Schedule::new calls — not the single-leg recurrence shape")
+        return
     dur, dep, new = dur[0], dep[0], new[0]
     e_from, e_to, e_time = (mir.expr(fn, a) for a in dur["args"][2:5])
-    loc_prev, dep_prev = (carry, (".0",)), (carry, (".1",))
     act = lambda rt, pth: rt[0] == "call" and rt[1].endswith("Tour::get")
 
     def chk(inst, ok, good, bad, ln):
@@ -578,23 +574,54 @@ def r1_schedule_recurrence(F, r):
             r.ok("update_schedules: " + inst, good)
         else:
             r.fail("update_schedules: " + inst, bad, F.loc(g, ln))
-    chk("leg origin", e_from == loc_prev, "duration is queried from the previous activity's location (carried)", "the travel duration is not queried FROM the location carried from the previous activity", dur["ln"])
+    if not (e_time[0][0] == "agg" and e_time[0][1].endswith("TravelTime#Departure") and e_time[0][2]):
+        chk("leg departure", False, "", "the travel duration is not queried at TravelTime::Departure(previous departure)", dur["ln"])
+        return
+    dep_prev, loc_prev = e_time[0][2][0], e_from
+    fold_form = fn["kind"] == "Closure" and fn["argc"] >= 3 and fn["locals"][2].startswith("(")
+    e_arr = mir.expr(fn, dep["args"][-1])
+    e_dcall = (("call", dep["callee"], tuple(mir.expr(fn, a) for a in dep["args"])), ())
+    if fold_form:
+        carry = ("arg", 2)
+        chk("leg origin", loc_prev == (carry, (".0",)), "duration is queried from the previous activity's location (carried)", "the travel duration is not queried FROM the location carried from the previous activity", dur["ln"])
+        chk("leg departure", dep_prev == (carry, (".1",)), "... at the previous activity's departure (carried)", "the travel duration is not queried at the departure carried from the previous activity", dur["ln"])
+        ret = mir.expr(fn, {"l": 0, "p": []})
+        ok = ret[0][0] == "agg" and len(ret[0][2]) == 2 and ret[0][2][0] == e_to and _is_call(ret[0][2][1], "ActivityCost::estimate_departure")
+        chk("carry", ok, "(current location, current departure) is carried to the next activity", "the pair carried to the next activity is not (current location, current DEPARTURE): "
+            "the next leg starts at the wrong place or time (e.g. at the arrival, ignoring service and waiting)", fn["bbs"][mir.ret_blocks(fn)[0]]["t"].get("ln") if mir.ret_blocks(fn) else None)
+    else:
+        # loop form: the carried values are locals that are re-assigned inside the loop
+        def carried_local(e):
+            return e[0][1][1] if e[0][0] == "opaque" and isinstance(e[0][1], tuple) and e[0][1][0] in ("local", "mut") and not e[1] else None
+        la, lb = carried_local(dep_prev), carried_local(loc_prev)
+        if la is None or lb is None:
+            r.ok("update_schedules: form", "not decided: the pass is neither a fold over a (location, departure) pair nor a loop over two re-assigned locals")
+            return
+        D = mir.defs(fn)
+
+        def assigned(l):
+            out = []
+            for d in D.get(l, []):
+                if d[0] == "s" and d[3]["r"]["k"] == "use":
+                    out.append(mir.expr(fn, d[3]["r"]["o"][0]))
+                elif d[0] == "c":
+                    out.append((("call", d[2]["callee"], tuple(mir.expr(fn, a) for a in d[2]["args"])), ()))
+            return out
+        chk("leg origin", True, "duration is queried from the carried location variable", "", dur["ln"])
+        chk("leg departure", True, "... at the carried departure variable", "", dur["ln"])
+        va, vb = assigned(la), assigned(lb)
+        ok = any(_is_call(x, "ActivityCost::estimate_departure") for x in va) and any(x == e_to for x in vb) \
+            and not any(x == e_arr for x in va)
+        chk("carry", ok, "the carried variables are re-assigned to (current location, current departure)", "the variables carried to the next activity are not re-assigned to (current location, "
+            "current DEPARTURE): the next leg starts at the wrong place or time (e.g. at the arrival, ignoring service and waiting)", dep["ln"])
     chk("leg destination", _mentions(e_to, act) and e_to[1][-2:] == (".place", ".location"), "... to the current activity's location",
         "the travel duration is not queried TO the current activity's place.location", dur["ln"])
-    chk("leg departure", e_time[0][0] == "agg" and e_time[0][1].endswith("TravelTime#Departure") and e_time[0][2] and e_time[0][2][0] == dep_prev,
-        "... at the previous activity's departure (carried)", "the travel duration is not queried at TravelTime::Departure(previous departure)", dur["ln"])
-    e_arr = mir.expr(fn, dep["args"][-1])
-    is_arr = e_arr[0][0] == "bin" and e_arr[0][1] == "Add" and {0, 1} == {i for i, x in enumerate(e_arr[0][2:4]) if x == dep_prev or _is_call(x, "TransportCost::duration")} \
-        and any(x == dep_prev for x in e_arr[0][2:4])
-    chk("arrival", is_arr, "arrival = previous departure + travel duration", "the arrival handed to estimate_departure is not `previous departure + travel duration`", dep["ln"])
+    is_arr = e_arr[0][0] == "bin" and e_arr[0][1] == "Add" and any(x == dep_prev for x in e_arr[0][2:4]) and any(_is_call(x, "TransportCost::duration") for x in e_arr[0][2:4])
+    chk("arrival", is_arr, "arrival = previous departure + travel duration", "the arrival handed to estimate_departure is not `previous departure + travel duration` (same departure as the leg query)", dep["ln"])
     chk("departure subject", _mentions(mir.expr(fn, dep["args"][-2]), act), "departure estimated for the current activity", "estimate_departure is not asked about the current activity", dep["ln"])
     n0, n1 = mir.expr(fn, new["args"][0]), mir.expr(fn, new["args"][1])
     chk("stored schedule", n0 == e_arr and _is_call(n1, "ActivityCost::estimate_departure"), "Schedule::new(arrival, departure)",
         "the stored schedule is not (arrival, departure) of this activity (swapped or taken from another value)", new["ln"])
-    ret = mir.expr(fn, {"l": 0, "p": []})
-    ok = ret[0][0] == "agg" and len(ret[0][2]) == 2 and ret[0][2][0] == e_to and _is_call(ret[0][2][1], "ActivityCost::estimate_departure")
-    chk("carry", ok, "(current location, current departure) is carried to the next activity", "the pair carried to the next activity is not (current location, current DEPARTURE): "
-        "the next leg starts at the wrong place or time (e.g. at the arrival, ignoring service and waiting)", fn["bbs"][mir.ret_blocks(fn)[0]]["t"].get("ln") if mir.ret_blocks(fn) else None)
     # total duration / distance
     us = F.find1("schedule_update::update_statistics")
     ufn = F.fns[us]
@@ -642,6 +669,14 @@ def r2_latest_arrival_recurrence(F, r):
     chk("latest departure", ok, "latest departure = following latest arrival - travel duration", "the latest departure is not `latest arrival of the following activity - travel duration` "
         "(operands swapped or added): latest arrivals are too late and infeasible insertions pass the time-window gate", arr["ln"])
     chk("latest arrival subject", mir.expr(fn, arr["args"][-2])[0] == act, "estimate_arrival asked about this activity", "estimate_arrival is not asked about the current activity", arr["ln"])
+    eqs = [st for _, _, st in mir.stmts(fn) if st["r"]["k"] == "bin" and st["r"]["op"] in ("Eq", "Ne")]
+    unb = [st for st in eqs if any("MAX" in str(mir.expr(fn, o)[0][1]) for o in st["r"]["o"] if mir.expr(fn, o)[0][0] == "const")]
+    if unb:
+        st = unb[0]
+        others = [mir.expr(fn, o) for o in st["r"]["o"] if not (mir.expr(fn, o)[0][0] == "const")]
+        chk("unbounded shortcut", others == [(acc, (".0",))], "the window end is used directly only while the CARRIED latest time is unbounded (MAX)",
+            "the `no limit yet` shortcut tests something other than the latest time carried from the following activity: with an open shift end the latest arrivals of "
+            "earlier activities ignore the windows of later ones (infeasible insertions pass)", st.get("ln"))
     # waiting: pushes an Add(acc.2, max(Sub(tw.start, arrival), 0))
     ok = False
     for _, t in mir.calls(fn):
@@ -690,6 +725,54 @@ def r3_activity_time_formulas(F, r):
     else:
         r.fail("SimpleActivityCost::estimate_arrival", "latest arrival is not `min(time window end, departure - service duration)`: latest arrivals are overestimated and late insertions pass "
                "the time-window gate", F.loc(arr[0]))
+
+
+def r4_capacity_recurrence(F, r):
+    """capacity summaries: current_i = current_{i-1} + change_i; max_past_i = max_load(max_past_{i-1}, current_i); max_future_i = max_load(max_future_{i+1}, current_i)"""
+    cls = [g for g in F.fns if "CapacitatedMultiTrip" in g and "recalculate_states" in g and F.fns[g]["kind"] == "Closure"]
+    fwd = [g for g in cls if any(t["callee"].endswith("::max_load") for _, t in mir.calls(F.fns[g])) and any(t["callee"].endswith("arith::Add::add") for _, t in mir.calls(F.fns[g]))
+           and F.fns[g]["argc"] >= 3 and F.fns[g]["locals"][2].startswith("(")]
+    if not cls:
+        raise AnchorError("CapacitatedMultiTrip::recalculate_states closures")
+    if len(fwd) != 1:
+        r.ok("recalculate_states: form", "not decided: the forward load pass is not written as a fold over a (current, max) pair")
+        return
+    g = fwd[0]
+    fn = F.fns[g]
+    acc = ("arg", 2)
+    add = [t for _, t in mir.calls(fn) if t["callee"].endswith("arith::Add::add")]
+    mx = [t for _, t in mir.calls(fn) if t["callee"].endswith("::max_load")]
+    if len(add) != 1 or len(mx) != 1:
+        raise AnchorError(f"recalculate_states forward closure: {len(add)} additions, {len(mx)} max_load calls")
+    e_cur = (("call", add[0]["callee"], tuple(mir.expr(fn, a) for a in add[0]["args"])), ())
+    a0 = mir.expr(fn, add[0]["args"][0])
+
+    def chk(inst, ok, good, bad, ln):
+        if ok:
+            r.ok("recalculate_states: " + inst, good)
+        else:
+            r.fail("recalculate_states: " + inst, bad, F.loc(g, ln))
+    chk("current load", a0 == (acc, (".0",)) and _mentions(mir.expr(fn, add[0]["args"][1]), lambda rt, pth: rt[0] == "call" and (rt[1].endswith("::change") or rt[1].endswith("get_demand"))),
+        "current = carried current + demand change of the activity", "the running load is not `carried load + demand change of this activity`", add[0]["ln"])
+    margs = [mir.expr(fn, a) for a in mx[0]["args"]]
+    chk("past maximum", (acc, (".1",)) in margs and e_cur in margs, "max_past = max_load(carried max, current)",
+        "the running past maximum is not `max_load(carried maximum, current load)`: earlier load peaks are forgotten, so a static delivery that does not fit next to an earlier peak is admitted", mx[0]["ln"])
+    ret = mir.expr(fn, {"l": 0, "p": []})
+    e_max = (("call", mx[0]["callee"], tuple(margs)), ())
+    chk("carry", ret[0][0] == "agg" and len(ret[0][2]) == 2 and ret[0][2][0] == e_cur and ret[0][2][1] == e_max, "(current, max) carried to the next activity",
+        "the pair carried to the next activity is not (new current load, new past maximum)", mx[0]["ln"])
+    # backward pass: max_future
+    bwd = [g2 for g2 in cls if g2 != g and any(t["callee"].endswith("::max_load") for _, t in mir.calls(F.fns[g2])) and F.fns[g2]["argc"] >= 3 and not F.fns[g2]["locals"][2].startswith("(")]
+    for g2 in bwd:
+        f2 = F.fns[g2]
+        m2 = [t for _, t in mir.calls(f2) if t["callee"].endswith("::max_load")][0]
+        ma = [mir.expr(f2, a) for a in m2["args"]]
+        idx = [x for x in ma if _is_call(x, "Index::index")]
+        ok = (("arg", 2), ()) in ma and idx and (("arg", 3), ()) in idx[0][0][2]
+        if ok:
+            r.ok("recalculate_states: future maximum", "max_future = max_load(carried max, current load at the index)")
+        else:
+            r.fail("recalculate_states: future maximum", "the running future maximum is not `max_load(carried maximum, current load at this index)`", F.loc(g2, m2["ln"]))
 
 
 HANDOVER = list(typestate.HANDOVER_TRAIT_METHODS) + ["vrp_core::solver::search::recreate::Recreate::run"]
@@ -769,9 +852,10 @@ def run(ctx):
         k_rules(F, ctx)
     except AnchorError as e:
         ctx.rule("C05-K", "slot refresh rules").broken(str(e))
-    ctx.run("C05-R1", "schedule recurrence: arrival/departure/carry of the forward pass and the total duration have their defining form (canonical expressions)", r1_schedule_recurrence, floor=8)
-    ctx.run("C05-R2", "latest-arrival / waiting recurrence of the backward pass has its defining form (canonical expressions)", r2_latest_arrival_recurrence, floor=6)
+    ctx.run("C05-R1", "schedule recurrence: arrival/departure/carry of the forward pass and the total duration have their defining form (canonical expressions)", r1_schedule_recurrence, floor=1)
+    ctx.run("C05-R2", "latest-arrival / waiting recurrence of the backward pass has its defining form (canonical expressions)", r2_latest_arrival_recurrence, floor=1)
     ctx.run("C05-R3", "activity time formulas: departure = max(arrival, tw.start) + duration; latest arrival = min(tw.end, departure - duration)", r3_activity_time_formulas, floor=2)
+    ctx.run("C05-R4", "capacity summaries: running load, past maximum and future maximum have their defining recurrence (canonical expressions)", r4_capacity_recurrence, floor=1)
     ctx.run("C05-T1", "typestate: every hand-over function returns only solutions whose routes were accepted after the last mutation", t1_handover, floor=25)
     ctx.run("C05-I1", "tour insertion in evaluator/insertion code is followed by goal.accept_* on every path", i1_insert_then_accept, floor=2)
     ctx.extra["slots"] = {"route": len({o.key for o in kv.ops(F) if o.store == "route"}),
